@@ -29,7 +29,8 @@ RULE = ("cases = random TypeSpec (as C01, incl. abstract origins, data classes, 
         "union of data classes selected by Field(discriminator=...) with any value under the discriminator key; 3%: one of the "
         "ready-made constrained classes of utype.types (Timestamp, EmailStr, Year ...; several carry pre_validate / post_validate "
         "hooks) called directly with hostile values and temporal extremes (datetime.min / max, timedelta.max ...); 3%: temporal targets "
-        "given huge finite Decimals while the ambient decimal context does not trap Overflow (decimal.ExtendedContext).")
+        "given huge finite Decimals while the ambient decimal context does not trap Overflow (decimal.ExtendedContext); 3%: one field or "
+        "parameter given under two of its spellings with two hostile values (the alias-conflict report).")
 ASSUMPTIONS = [
     "top-level data-class inputs whose keys are not strings are outside the statement (TypeError 'keywords must be strings' is exempt unless cast_keyword_str)",
     "a step budget separates 'loops' from 'long': exhaustion is confirmed at 10x budget and requires a <=12-line loop signature in the last 1e5 events",
@@ -129,6 +130,43 @@ def make_stock_case(rng):
     return {"fam": "stock", "name": name, "opts": {}, "inputs": inputs, "rng": rng, "spec": ("leaf", "int"), "route": "stock"}
 
 
+ALIAS_SRC = """
+import typing
+import utype
+from utype import Schema, DataClass, Field, Options
+class AC({base}):
+    __options__ = Options(**OPTS)
+    a: typing.Any = Field(alias_from=['b', 'c'], default=None)
+    n: int = Field(alias_from=['m'], default=0)
+@utype.parse(options=Options(**OPTS))
+def fa(a=utype.Param(None, alias_from=['b']), n: int = utype.Param(0, alias_from=['m']), **kw):
+    return a, n
+"""
+
+
+def _deep(n):
+    x = []
+    for _ in range(n):
+        x = [x]
+    return x
+
+
+def make_alias_case(rng):
+    """one field given under two of its spellings with any two values whatsoever (the report of the conflict handles both values)"""
+    inputs = []
+    for _ in range(12):
+        v1, v2 = V.pick(rng, None)[1], V.pick(rng, None)[1]
+        if rng.random() < 0.35:
+            # values whose repr() / str() itself fails: an int beyond the interpreter's digit limit, a very deep nesting
+            v2 = rng.choice([lambda: 10 ** 5000, lambda: [10 ** 5000], lambda: {"k": -(10 ** 6000)}, lambda: _deep(3000), lambda: (_deep(3000), 1)])
+            if rng.random() < 0.5:
+                v1, v2 = v2, v1
+        k1, k2 = rng.choice([("a", "b"), ("b", "a"), ("b", "c"), ("n", "m"), ("m", "n")])
+        inputs.append(lambda v1=v1, v2=v2, k1=k1, k2=k2: {k1: v1(), k2: v2()})
+    return {"fam": "alias", "base": rng.choice(["Schema", "DataClass", "function"]), "opts": dict(rng.choice(OPTS)), "inputs": inputs, "rng": rng,
+            "spec": ("leaf", "int"), "route": "alias-conflict"}
+
+
 def make_ambient_case(rng):
     """temporal targets parsed while the caller's decimal context does not trap Overflow (the stdlib's stock ExtendedContext):
     arithmetic on a huge finite Decimal then yields Infinity instead of raising"""
@@ -151,6 +189,8 @@ def make_case(i, rng, tier):
         return make_disc_case(rng)
     if rng.random() < 0.03:
         return make_ambient_case(rng)
+    if rng.random() < 0.03:
+        return make_alias_case(rng)
     if rng.random() < 0.03:
         return make_stock_case(rng)
     depth = rng.choice([0, 1, 2, 2, 3]) if tier == "quick" else rng.choice([0, 1, 2, 2, 3, 3, 4])
@@ -198,6 +238,17 @@ def run_case(case, ctx):
                     b.created.append(c)
                 entry = Entry(lambda x: Hcls.__from__(x), judged=True)
                 spec = ("dc-with-discriminated-union", case["base"])
+            elif case.get("fam") == "alias":
+                ctx.count("alias_conflict_cases")
+                from ..routes import Entry
+                ns = {"OPTS": {k: v for k, v in opts.items() if k != "max_errors" or opts.get("collect_errors")}}
+                exec(ALIAS_SRC.format(base="Schema" if case["base"] == "function" else case["base"]), ns)
+                b.created.append(ns["AC"])
+                if case["base"] == "function":
+                    entry = Entry(lambda x: ns["fa"](**x), judged=True)
+                else:
+                    entry = Entry(lambda x: ns["AC"].__from__(x), judged=True)
+                spec = ("field-with-several-spellings", case["base"])
             elif case.get("fam") == "stock":
                 ctx.count("stock_type_cases")
                 from ..routes import Entry
@@ -212,7 +263,7 @@ def run_case(case, ctx):
                 T = Rule.parse_annotation(ann)
                 entry = make_entry(route, ann, T, opts, wrap_bare=True)
         except Exception as e:
-            if case.get("fam") in ("disc", "stock"):
+            if case.get("fam") in ("disc", "stock", "alias"):
                 raise  # a fixed, legal declaration: failing to build it is a harness error, not a rejected declaration
             ctx.count("declaration_rejected:" + type(e).__name__)
             return
